@@ -1,0 +1,110 @@
+//go:build verif
+
+// Verification exports (only compiled with -tags verif; add-only, no behaviour change).
+// The recycler and retryer are normally driven by goroutines reading recyclerCh / retryerCh and
+// by real time.AfterFunc timers. These wrappers let a harness (a) wait until the two channel
+// consumers have handled everything that was enqueued, (b) give a resource a recycler/retryer
+// whose real timers are too far away to ever fire, and (c) call the timer callbacks and read
+// the bookkeeping maps directly.
+package outlier
+
+import (
+	"runtime"
+	"strconv"
+	"sync/atomic"
+	"time"
+)
+
+var verifSyncSeq uint64
+
+// VerifSync returns once every task enqueued on recyclerCh and retryerCh before the call has
+// been handled completely. Both channels are FIFO with a single consumer, so a marker task
+// (no nodes, a unique resource name) is handled after all earlier tasks; handling it creates
+// the marker's recycler / retryer entry, which is what is waited for (and then removed).
+func VerifSync() {
+	name := "\x00verif-sync-" + strconv.FormatUint(atomic.AddUint64(&verifSyncSeq, 1), 10)
+	recyclerCh <- task{nil, name}
+	retryerCh <- task{nil, name}
+	for {
+		recyclerMutex.Lock()
+		_, ok := recyclers[name]
+		recyclerMutex.Unlock()
+		if ok {
+			break
+		}
+		runtime.Gosched()
+	}
+	for {
+		retryerMutex.Lock()
+		_, ok := retryers[name]
+		retryerMutex.Unlock()
+		if ok {
+			break
+		}
+		runtime.Gosched()
+	}
+	recyclerMutex.Lock()
+	delete(recyclers, name)
+	recyclerMutex.Unlock()
+	retryerMutex.Lock()
+	delete(retryers, name)
+	retryerMutex.Unlock()
+}
+
+// VerifInstall gives the resource a recycler and a retryer built from its loaded rule exactly
+// as getRecyclerOfResource / getRetryerOfResource build them, except that the timer interval is
+// `interval` (choose it far beyond the life of the process) and the retryer's check function is
+// never reached through a timer.
+func VerifInstall(resource string, interval time.Duration) {
+	rc := getRecyclerOfResource(resource)
+	rc.mtx.Lock()
+	rc.interval = interval
+	rc.mtx.Unlock()
+	rt := getRetryerOfResource(resource)
+	rt.mtx.Lock()
+	rt.interval = interval
+	rt.mtx.Unlock()
+}
+
+// VerifRecycle is the recycler's timer callback for node.
+func VerifRecycle(resource, node string) { getRecyclerOfResource(resource).recycle(node) }
+
+// VerifConnected / VerifDisconnected are the two outcomes of the retryer's timer callback.
+func VerifConnected(resource, node string, rt uint64) {
+	getRetryerOfResource(resource).onConnected(node, rt)
+}
+
+func VerifDisconnected(resource, node string) { getRetryerOfResource(resource).onDisconnected(node) }
+
+// VerifNodeStates returns address -> breaker state of the resource's node breakers.
+func VerifNodeStates(resource string) map[string]int32 {
+	ret := make(map[string]int32)
+	for address, breaker := range getNodeBreakersOfResource(resource) {
+		ret[address] = int32(breaker.CurrentState())
+	}
+	return ret
+}
+
+// VerifRecyclerStatus returns a copy of the recycler's status map.
+func VerifRecyclerStatus(resource string) map[string]bool {
+	r := getRecyclerOfResource(resource)
+	r.mtx.Lock()
+	defer r.mtx.Unlock()
+	ret := make(map[string]bool, len(r.status))
+	for k, v := range r.status {
+		ret[k] = v
+	}
+	return ret
+}
+
+// VerifRetryerCounts returns a copy of the retryer's counts map.
+func VerifRetryerCounts(resource string) map[string]uint32 {
+	r := getRetryerOfResource(resource)
+	r.mtx.Lock()
+	defer r.mtx.Unlock()
+	ret := make(map[string]uint32, len(r.counts))
+	for k, v := range r.counts {
+		ret[k] = v
+	}
+	return ret
+}
